@@ -919,3 +919,55 @@ def regex_op(inp, W):
         else:
             out = getattr(rx, fn)(*pos, x)
     return {"out": out}
+
+# ---------------------------------------------------------------------------- C20 rendering
+
+@op
+def render_op(inp, W):
+    import contextlib
+    di = W.di
+    obj = inp["obj"]
+    kind = inp["kind"]
+    kw = {k: v for k, v in inp.get("kwargs", [])}
+    how = inp.get("how", "to_string")
+    with contextlib.ExitStack() as st:
+        if W.sym:
+            from . import render, stubs, symx, symnp
+            util = __import__("dataiter.util", fromlist=["x"])
+            st.enter_context(render.RenderContext(util))
+            tw = inp.get("terminal_width")
+            if tw is not None:
+                st.enter_context(stubs.patched(util, "get_print_width", lambda: render.SymWidth(tw.e) - 1))
+                vec = __import__("dataiter.vector", fromlist=["x"])
+            class MathStub:
+                @staticmethod
+                def isinf(x):
+                    return symnp.isinf(x) if isinstance(x, symx.SymF64) else __import__("math").isinf(x)
+            st.enter_context(stubs.patched(util, "math", MathStub))
+            def positional(value, **k):
+                # contract: a non-empty digit string "<int digits>.<fraction digits>" (lengths arbitrary within 1..3 / 0..3)
+                a = symx.choice("int_digits", [1, 3]); b = symx.choice("frac_digits", [0, 2])
+                return "1" * a + "." + "1" * b
+            st.enter_context(stubs.patched(symnp, "format_float_positional", positional))
+            st.enter_context(stubs.patched(symnp, "format_float_scientific", lambda value, **k: render.cell_token()))
+            if kind == "lod":
+                lm = __import__("dataiter.list_of_dicts", fromlist=["x"])
+                st.enter_context(stubs.patched(lm, "json", stubs.JsonStub(lm.json, None)))
+        elif inp.get("terminal_width") is not None:
+            import shutil, os
+            util = __import__("dataiter.util", fromlist=["x"])
+            twv = int(inp["terminal_width"])
+            old = util.get_print_width
+            util.get_print_width = lambda: twv - 1
+            st.callback(lambda: setattr(util, "get_print_width", old))
+        if how == "repr": text = repr(obj)
+        elif how == "str": text = str(obj)
+        elif how == "print_":
+            import io
+            buf = io.StringIO()
+            with contextlib.redirect_stdout(buf):
+                obj.print_(**kw)
+            text = buf.getvalue()
+            if text.endswith("\n"): text = text[:-1]
+        else: text = obj.to_string(**kw)
+    return {"text": text, "recv": obj}
